@@ -79,7 +79,7 @@ PROPS = {
         "parts": [
             {"engine": "D", "crate": "d_node", "harnesses": [
                 {"name": "c03_paid_put", "covers": ["unknown_payee_xor_near", "stored", "rejected"], "quick": {"max_paths": 100000, "timeout": 900}},
-                {"name": "c03_unpaid_put", "covers": ["immutable_unpaid", "not_held", "update_of_held"], "quick": {"max_paths": 1000, "timeout": 600}},
+                {"name": "c03_unpaid_put", "covers": ["immutable_unpaid", "not_held", "update_of_held", "presented_under_the_key_of_another_held_record"], "quick": {"max_paths": 1000, "timeout": 600}},
             ]},
         ],
         "assumptions": NODE_ASSUMPTIONS,
@@ -146,7 +146,7 @@ PROPS = {
         "parts": [
             {"engine": "D", "crate": "d_node", "harnesses": [
                 {"name": "c07_scratchpad_seq", "covers": ["replaced", "kept", "first_write_still_pending", "unpaid_update_refused_while_first_write_pending"], "quick": {"max_paths": 10000, "timeout": 600}},
-                {"name": "c07_union", "covers": ["transactions", "registers", "cross_kind"], "quick": {"max_paths": 1000, "timeout": 600}},
+                {"name": "c07_union", "covers": ["transactions", "registers", "cross_kind", "restricted_register"], "quick": {"max_paths": 1000, "timeout": 600}},
                 {"name": "c07_scratchpad_conc", "covers": ["settled", "replaced_by_a_delivery", "both_deliveries_stale"], "quick": {"max_paths": 100000, "timeout": 600},
                  "thorough": {"env": {"C07_CONC": 3}, "max_paths": 5000000, "timeout": 3400}},
             ]},
@@ -221,6 +221,9 @@ PROPS = {
     },
     "C12": {
         "parts": [
+            {"engine": "D", "crate": "d_node", "harnesses": [
+                {"name": "c12_encode_history", "covers": ["encoded", "after_a_failed_encoding"], "quick": {"max_paths": 10000, "timeout": 300}},
+            ]},
             {"engine": "K", "crate": "k_proto", "harnesses": [
                 kh("c12_kind_tag_table_fixed", "numeric tag of each of the 8 record kinds is the fixed wire value", "8 kinds, exhaustive"),
                 kh("c12_kind_decoder_inverse_of_encoder", "RecordKind decoder accepts exactly tags 0..=7 and inverts the encoder", "all 2^32 tag values"),
@@ -234,7 +237,8 @@ PROPS = {
                 kh("c12_decoders_never_panic_sixteen_bytes", "... 16-byte records", "all contents, length 16", K_STUBS_TRACING + ["rmp_serde::from_slice -> Err"], only="thorough"),
             ]},
         ],
-        "assumptions": K_ASSUMPTIONS + ["rmp_serde::from_slice is stubbed to fail in the slicing harnesses: serde-derive + rmp decoding of symbolic bytes is out of CBMC's reach (measured > 15 min for 3 bytes)"],
+        "assumptions": K_ASSUMPTIONS + [
+            "engine D part (c12_encode_history, d_node): the real try_serialize_record / try_deserialize_record / RecordHeader of ant-protocol run natively; the earlier encodings and the one under test are carried out on a fresh OS thread per path; a harness-local payload type fails its serialisation after 0 or 3 elements","rmp_serde::from_slice is stubbed to fail in the slicing harnesses: serde-derive + rmp decoding of symbolic bytes is out of CBMC's reach (measured > 15 min for 3 bytes)"],
         "bounds": {"quick": "all 8 kinds; all u32 tags; record lengths 0..4 with arbitrary contents", "thorough": "as quick, plus record lengths 8 and 16"},
         "outside": ["round trips of full values of every record kind and of Request/Response messages through serde-derive + rmp (not claimed)", "payloads with payment proofs", "decoding of arbitrary longer byte strings"],
     },
